@@ -12,6 +12,7 @@ import numpy as np
 
 from vf import common, gen, refmdp
 
+SIBLING_EVERY = 3      # every n-th case is followed by a same-shape sibling problem/solver in the same process (vf/worker.py)
 LEVEL = "exploration"
 TECHNIQUE = "reference-model oracle on injected policies (numpy L_pi iteration with the documented stop rule + exact linear solve) and a stepped twin exposing the policy sequence"
 RULE = ("cases = generated MDP (all structure classes, 1- and 2-component actions, listing order, padded "
